@@ -25,6 +25,11 @@ def build_result(ex, kind, shape_name='1d', nds=1, named=True, tag='', with_nan=
         n = int(np.prod(shape, dtype=int))
         ref = (np.arange(1, n + 1, dtype=float) * 1.5).reshape(shape)
         err = np.full(shape, 0.125)
+        # array flavour (jobs that ask for it): plain / NaN in the first failing bin / big-endian arrays (read from a file)
+        flavour = ex.choice(3, f'{tag}array-flavour') if (with_nan and shape) else 0
+        big_endian = flavour == 2
+        if big_endian:
+            ref, err = ref.astype('>f8'), err.astype('>f8')
         fortran = shape_name.endswith('F')       # Fortran-ordered arrays (transposed views, loadtxt(unpack=True)...)
         if fortran:
             ref, err = np.asfortranarray(ref), np.asfortranarray(err)
@@ -42,9 +47,11 @@ def build_result(ex, kind, shape_name='1d', nds=1, named=True, tag='', with_nan=
             v = np.array(ref, dtype=float, copy=True).reshape(-1) if shape else np.array([float(ref)])
             for i in fl:
                 v[i] += 10.0 + d
-            if with_nan and d == 0 and fl and ex.flag(f'{tag}nan-in-first-failing-bin'):
+            if flavour == 1 and d == 0 and fl:
                 v[fl[0]] = np.nan          # a NaN cell fails every comparison: the failing pattern stays the same
             v = v.reshape(shape) if shape else np.float64(v[0])
+            if big_endian:
+                v = v.astype('>f8')
             if shape and fortran:
                 v = np.asfortranarray(v)
             dss.append(Dataset(v, err.copy() if shape else np.float64(err), bins=bins, name=f'ds{d}' if named else ''))
@@ -64,6 +71,17 @@ def build_result(ex, kind, shape_name='1d', nds=1, named=True, tag='', with_nan=
                 res = TestHolmBonferroni(name='t-holm', test=st, alpha=0.01).evaluate()
         info['expected_verdict'] = not any(failing)
         return res, info
+    if kind == 'external':
+        # a user-made result: its representation is a tuple of live templates (a table WITH units, a text, a plot)
+        from valjean.javert.test_external import TestExternal
+        from valjean.javert.templates import TableTemplate, TextTemplate, PlotTemplate, SubPlotElements, CurveElements
+        ok = bool(ex.bool(f'{tag}external-success'))
+        tab = TableTemplate(np.array([1.5, 2.5]), np.array(['a', 'b']), headers=['energy', 'name'], units=['MeV', ''],
+                            highlights=[np.array([False, not ok]), np.array([False, False])])
+        curve = CurveElements(values=np.array([1.0, 2.0]), bins=[np.array([0.0, 1.0, 2.0])], legend='c')
+        plot = PlotTemplate(subplots=[SubPlotElements(curves=[curve], axnames=('x', 'y'))])
+        info['expected_verdict'] = ok
+        return TestExternal(tab, TextTemplate('some text'), plot, name='t-ext', success=ok).evaluate(), info
     if kind == 'failed':
         from valjean.gavroche.test import Test
 
